@@ -105,7 +105,7 @@ def run(pid, spec, tier, seed):
             if key in seen:
                 continue
             seen.add(key)
-            ops = ["case %s %s" % (v["case"], spec.get("case_attrs", "wf"))] + v["ops"]
+            ops = case_ops(r, v, spec)
             if hbin and len(seen) <= 3:
                 ops = shrink(pid, spec, hbin, wd, ops, v, seed, tier)
             rp = C.write_replay(pid, "input", dict(property=pid, kind="monitor", site=v["site"], what=v["what"],
@@ -144,6 +144,26 @@ def run(pid, spec, tier, seed):
         shutil.rmtree(wd, ignore_errors=True)
 
 
+def case_ops(r, v, spec):
+    """the op lines of the violating case as the harness wrote them (case line with its own attributes), up to and
+    including the operation during which the monitor fired (monitors usually run before the op line is recorded, so
+    one more line than the monitor saw is taken; an extra trailing op is harmless for a replay)"""
+    try:
+        lines = open(os.path.join(r["outdir"], "ops.txt")).read().split("\n")
+        for i, l in enumerate(lines):
+            f = l.split()
+            if len(f) >= 2 and f[0] == "case" and f[1] == v["case"]:
+                out = [l]
+                for m in lines[i + 1:]:
+                    if m.startswith("case ") or not m.strip() or len(out) > len(v["ops"]) + 1:
+                        break
+                    out.append(m)
+                return out
+    except OSError:
+        pass
+    return ["case %s %s" % (v["case"], spec.get("case_attrs", "wf"))] + v["ops"]
+
+
 def shrink(pid, spec, hbin, wd, ops, v, seed, tier):
     n = [0]
     def still(cand):
@@ -158,7 +178,7 @@ def shrink(pid, spec, hbin, wd, ops, v, seed, tier):
     try:
         if not still(ops):
             return ops  # not reproducible in replay mode (should not happen): keep the full sequence
-        return C.shrink_ops(hbin, ops, still, budget=40 if tier == "quick" else 120)
+        return C.shrink_ops(hbin, ops, still, budget=60 if tier == "quick" else 150)
     except Exception as e:  # shrinking is best effort
         return ops
 
